@@ -76,6 +76,7 @@ type Def struct {
 	// usable region: longitudes (relative to the definition's own prime meridian) lon0 ± dLon, latitudes [latMin, latMax]
 	Lon0, DLon, LatMin, LatMax float64
 	A, Rf                      float64 // numeric ellipsoid when known (EllKind ab/arf)
+	BothDatum                  bool    // named datum and explicit towgs84 together
 }
 
 // String renders the PROJ.4 definition.
@@ -176,6 +177,7 @@ type Options struct {
 	PlainEll  bool // only named ellipsoids / a+rf (WKT-expressible)
 	Area      *DatumArea
 	SmallTowgs bool // random towgs84 limited to |t|<=100 m, |r|<=1", |s|<=2 ppm
+	NoBothDatum bool // never combine a named datum with an explicit towgs84
 }
 
 // AllProjs lists the supported projections.
@@ -218,6 +220,20 @@ func GenEllDatum(r *R, d *Def, o *Options) {
 		// a named datum brings its own ellipsoid; an explicit +ellps is overridden, an explicit +a is not
 		if r.Bool() || d.EllKind == "ab" || d.EllKind == "arf" {
 			d.Ell, d.EllKind = "", "default"
+		}
+		if r.Chance(0.12) && !o.NoBothDatum {
+			// a definition that carries both a named datum and an explicit +towgs84 (in either
+			// order): which of the two wins is part of the behaviour of the original
+			p := []string{F(r.Range(-100, 100)), F(r.Range(-100, 100)), F(r.Range(-100, 100))}
+			if r.Bool() {
+				p = append(p, F(r.Range(-1, 1)), F(r.Range(-1, 1)), F(r.Range(-1, 1)), F(r.Range(-2, 2)))
+			}
+			if r.Bool() {
+				d.Datum = d.Datum + " +towgs84=" + strings.Join(p, ",")
+			} else {
+				d.Datum = " +towgs84=" + strings.Join(p, ",") + d.Datum
+			}
+			d.BothDatum = true
 		}
 	case "towgs84_3", "towgs84_7":
 		lim, rl, sl := 800.0, 8.0, 25.0
